@@ -1,12 +1,240 @@
-"""C23 -- HTTP client completes every request exactly once: bounded stand-in (contracts/parts/C23_bounded.py); deductive contracts may be added later."""
-from contracts._parts import bounded, EXPLORATION_NOTE
+"""C23 -- HTTP client completes every request exactly once with the exact body.
 
-CONTRACTS = []
+Deductive, on the body side of the property: the Response object that stands between the parser and the application's
+body protocol.  Its abstract state is (chunks buffered, chunks delivered, how often the protocol's connectionLost was
+called); the contracts below cover every operation in every state of the real state machine:
+
+  _bodyDataReceived   INITIAL: the chunk is appended to the buffer, nothing else; CONNECTED: exactly this chunk goes to the
+                      protocol, once; afterwards: refused (RuntimeError);
+  _bodyDataFinished   INITIAL: the reason (ResponseDone when none is given) is parked, state DEFERRED_CLOSE; CONNECTED: the
+                      protocol's connectionLost is called exactly once with it, state FINISHED; afterwards: refused;
+  deliverBody         INITIAL: makeConnection, then every buffered chunk exactly once in order (inductive over any number
+                      of chunks), buffer dropped, state CONNECTED *before* the transport is resumed (bytes handed over from
+                      inside resumeProducing then go straight to the protocol: seeded change C23-2); DEFERRED_CLOSE: the
+                      same, then connectionLost(parked reason) exactly once, state FINISHED; CONNECTED / FINISHED: refused.
+So the bytes the protocol gets are the bytes _bodyDataReceived got, in order, and connectionLost is called once, with
+the reason the parser gave.  Which reason the parser gives (ResponseDone / PotentialDataLoss / failure) and when the
+request Deferred fires is the bounded tier's business.
+Bounded (contracts/parts/C23_bounded.py): the real protocol and parser, every truncation point, segmentations.
+"""
+import z3
+
+from pyvc.api import *
+from pyvc import core
+from contracts._parts import bounded
+from twisted.python.failure import Failure
+from twisted.web import _newclient
+from twisted.web._newclient import Response, ResponseDone
+from twisted.web.http_headers import Headers
+
+M = "twisted.web._newclient"
+STATES = ("INITIAL", "CONNECTED", "DEFERRED_CLOSE", "FINISHED")
+
+
+def ev(S, name):
+    return [e for e in S.trace if e.name == name]
+
+
+def snap():
+    r = ctx().ghost["$objs"]["r"]
+    return {"state": r._fields.get("_state"), "buffer": r._fields.get("_bodyBuffer"), "protocol": r._fields.get("_bodyProtocol")}
+
+
+def chunk_delivered(I, proto, data):
+    """protocol.dataReceived during deliverBody: counted; must be the next buffered chunk"""
+    c = ctx()
+    g = c.ghost
+    k = g["delivered"]
+    c.oblige("%s/callout/next-buffered-chunk-in-order" % g["$contract"].name, veq(data, g["buffer"][k]), "callout")
+    g["delivered"] = k + 1
+    c.emit("protocol.dataReceived", proto, (data,), None, snap())
+
+
+def event(name):
+    def h(I, obj, *args, **kw):
+        ctx().emit(name, obj, args, kw, snap())
+    return h
+
+
+CALLS = {"protocol.makeConnection": event("protocol.makeConnection"), "protocol.connectionLost": event("protocol.connectionLost"),
+         "transport.resumeProducing": event("transport.resumeProducing"), "Failure._withoutTraceback": "native"}
+
+
+class _Response(Contract):
+    prop = "C23"
+    module = M
+    differential = False
+    trusted = ["the body protocol and the transport are recorded call-outs with a snapshot of the Response's state at the "
+               "moment of the call",
+               "_bodyBuffer is a list of opaque chunks (only their order and identity matter)"]
+
+    def response(self, state, buffer=None, protocol=None, reason=None):
+        tr = self.opaque("transport")
+        real = Response((b"HTTP", 1, 1), 200, b"OK", Headers(), None)
+        return self.make(Response, **dict(vars(real), _transport=tr, _state=state, _bodyBuffer=buffer, _bodyProtocol=protocol,
+                                          _reason=reason))
+
+    def bounded_inputs(self, tier):
+        return iter(())
+
+
+class DeliverInitial(_Response):
+    function = "Response._deliverBody_INITIAL"
+    calls = dict(CALLS, **{"protocol.dataReceived": chunk_delivered})
+    inputs = dict(buffer=ValList())
+    loops = {"Response._deliverBody_INITIAL#0": LoopSpec(inv=lambda v: v.delivered == v._i, ghost=("delivered",))}
+
+    def setup(self, i):
+        r = self.response("INITIAL", buffer=i.buffer)
+        p = self.opaque("protocol")
+        return dict(self=r, args=[p], objs=dict(r=r), ghost=dict(delivered=0, buffer=i.buffer, protocol=p))
+
+    raises = ()
+
+    def _all(S):
+        mk, rs = ev(S, "protocol.makeConnection"), ev(S, "transport.resumeProducing")
+        if len(mk) != 1 or len(rs) != 1 or ev(S, "protocol.connectionLost"):
+            return False
+        return band(S.trace[0] is mk[0], mk[0].args[0] is S.new.r._transport, S.ghost["delivered"] == L(S.i.buffer),
+                    S.new.r._state == "CONNECTED", S.new.r._bodyBuffer is None, S.new.r._bodyProtocol is S.ghost["protocol"],
+                    S.trace[-1] is rs[0])
+
+    def _resume(S):
+        # bytes that the transport hands over from inside resumeProducing must find the Response already connected
+        rs = ev(S, "transport.resumeProducing")
+        if len(rs) != 1:
+            return False
+        at = rs[0].snap
+        return band(at["state"] == "CONNECTED", at["buffer"] is None, at["protocol"] is S.ghost["protocol"])
+
+    ensures = dict(every_buffered_chunk_once_in_order_then_connected=_all, connected_before_the_transport_is_resumed=_resume)
+    canaries = [("        self._state = \"CONNECTED\"\n", "        self._transport.resumeProducing()\n", "connected_before_the_transport_is_resumed"),
+                ("for data in self._bodyBuffer:", "for data in self._bodyBuffer[1:]:", "every_buffered_chunk_once_in_order_then_connected")]
+
+
+class DeliverDeferredClose(_Response):
+    function = "Response._deliverBody_DEFERRED_CLOSE"
+    calls = dict(CALLS, **{"protocol.dataReceived": chunk_delivered})
+    inputs = dict(buffer=ValList())
+    loops = {"Response._deliverBody_DEFERRED_CLOSE#0": LoopSpec(inv=lambda v: v.delivered == v._i, ghost=("delivered",))}
+
+    def setup(self, i):
+        reason = Failure(ResponseDone("parked"))
+        r = self.response("DEFERRED_CLOSE", buffer=i.buffer, reason=reason)
+        p = self.opaque("protocol")
+        return dict(self=r, args=[p], objs=dict(r=r), ghost=dict(delivered=0, buffer=i.buffer, protocol=p, reason=reason))
+
+    raises = ()
+
+    def _all(S):
+        mk, lost = ev(S, "protocol.makeConnection"), ev(S, "protocol.connectionLost")
+        if len(mk) != 1 or len(lost) != 1 or ev(S, "transport.resumeProducing"):
+            return False
+        return band(S.trace[0] is mk[0], S.ghost["delivered"] == L(S.i.buffer), S.trace[-1] is lost[0],
+                    lost[0].args[0] is S.ghost["reason"], S.new.r._state == "FINISHED", S.new.r._bodyBuffer is None)
+
+    ensures = dict(every_buffered_chunk_once_in_order_then_lost_once_with_the_parked_reason=_all)
+    canaries = [("protocol.connectionLost(self._reason)", "pass", "every_buffered_chunk_once_in_order_then_lost_once_with_the_parked_reason")]
+
+
+class DeliverBodyRefused(_Response):
+    """deliverBody while a protocol is connected or after the body was delivered"""
+    function = "Response.deliverBody"
+    calls = CALLS
+    inputs = dict(state=OneOf("CONNECTED", "FINISHED"))
+
+    def setup(self, i):
+        old = self.opaque("protocol") if i.state == "CONNECTED" else None
+        r = self.response(i.state, protocol=old)
+        return dict(fn=Response.deliverBody, args=[r, self.opaque("protocol2")], objs=dict(r=r), ghost=dict(old=old))
+
+    raises = {RuntimeError: lambda S: True}
+    ensures = dict(nothing_happens=lambda S: band(len(S.trace) == 0, S.new.r._state == S.i.state, S.new.r._bodyProtocol is S.ghost["old"]))
+
+
+class BodyDataReceived(_Response):
+    function = "Response._bodyDataReceived"
+    calls = dict(CALLS, **{"protocol.dataReceived": event("protocol.dataReceived")})
+    inputs = dict(state=OneOf(*STATES), buffer=ValList(), data=Val())
+
+    def setup(self, i):
+        p = self.opaque("protocol") if i.state == "CONNECTED" else None
+        buf = i.buffer if i.state in ("INITIAL", "DEFERRED_CLOSE") else None
+        r = self.response(i.state, buffer=buf, protocol=p)
+        return dict(fn=Response._bodyDataReceived, args=[r, i.data], objs=dict(r=r), ghost=dict(protocol=p, seq0=i.buffer.seq))
+
+    raises = {RuntimeError: lambda S: S.i.state in ("DEFERRED_CLOSE", "FINISHED")}
+
+    def _step(S):
+        if S.exc is not None:
+            return band(len(S.trace) == 0, S.new.r._state == S.i.state)
+        got = ev(S, "protocol.dataReceived")
+        if S.i.state == "INITIAL":
+            b = S.new.r._bodyBuffer
+            # the buffer is the old buffer with exactly this chunk added at the end
+            appended = core.mk_bool(b.seq == z3.Concat(S.ghost["seq0"], z3.Unit(b.unwrap(S.i.data))))
+            return band(len(S.trace) == 0, S.new.r._state == "INITIAL", appended)
+        return band(len(got) == 1, len(S.trace) == 1, got[0].target is S.ghost["protocol"], veq(got[0].args[0], S.i.data),
+                    S.new.r._state == "CONNECTED")
+
+    ensures = dict(buffered_at_the_end_or_delivered_once=_step)
+    canaries = [("self._bodyBuffer.append(data)", "self._bodyBuffer.insert(0, data)", "!verify", "Response._bodyDataReceived_INITIAL"),
+                ("self._bodyProtocol.dataReceived(data)", "self._bodyProtocol.dataReceived(data[:-1])", "!verify", "Response._bodyDataReceived_CONNECTED")]
+
+
+class BodyDataFinished(_Response):
+    function = "Response._bodyDataFinished"
+    calls = dict(CALLS)
+    inputs = dict(state=OneOf(*STATES), given=ForkBool())
+
+    def setup(self, i):
+        p = self.opaque("protocol") if i.state == "CONNECTED" else None
+        reason = Failure(RuntimeError("truncated")) if i.given else None
+        r = self.response(i.state, buffer=[] if i.state in ("INITIAL", "DEFERRED_CLOSE") else None, protocol=p)
+        return dict(fn=Response._bodyDataFinished, args=[r] + ([reason] if i.given else []), objs=dict(r=r),
+                    ghost=dict(protocol=p, reason=reason))
+
+    raises = (RuntimeError, TypeError)
+
+    def _step(S):
+        late = S.i.state in ("DEFERRED_CLOSE", "FINISHED")
+        if S.exc is not None or late:
+            return band(S.exc is not None, late, len(S.trace) == 0, S.new.r._state == S.i.state)
+
+        def right(reason):
+            if S.i.given:
+                return reason is S.ghost["reason"]
+            return isinstance(reason, Failure) and isinstance(reason.value, ResponseDone)
+        lost = ev(S, "protocol.connectionLost")
+        if S.i.state == "INITIAL":
+            return band(len(S.trace) == 0, S.new.r._state == "DEFERRED_CLOSE", right(S.new.r._reason))
+        return band(len(lost) == 1, len(S.trace) == 1, lost[0].target is S.ghost["protocol"], right(lost[0].args[0]),
+                    S.new.r._state == "FINISHED", S.new.r._bodyProtocol is None)
+
+    ensures = dict(parked_or_reported_exactly_once_with_the_right_reason=_step)
+    canaries = [("        self._bodyProtocol.connectionLost(reason)\n        self._bodyProtocol = None",
+                 "        self._bodyProtocol = None", "parked_or_reported_exactly_once_with_the_right_reason", "Response._bodyDataFinished_CONNECTED")]
+
+
+CONTRACTS = [DeliverInitial, DeliverDeferredClose, DeliverBodyRefused, BodyDataReceived, BodyDataFinished]
 BOUNDED = bounded("C23")
-NOTES = dict(explanation='the real HTTP11ClientProtocol on a fake transport: ~420 hand-built and 200 h11-serialized responses truncated at every byte, delivered whole / bytewise / 2-way split, deliverBody called at four different times; oracle: generator tags and h11 as client', not_covered=["deductive contracts on the anchored functions (not built)"])
+_SCOPE = ('the real HTTP11ClientProtocol on a fake transport: ~420 hand-built and 200 h11-serialized responses truncated at every byte, delivered whole / bytewise / 2-way split, deliverBody called at five different times (one with a transport that hands held-back bytes over from inside resumeProducing), HTTP11ClientProtocol.abort() after every byte; oracle: generator tags and h11 as client')
+NOTES = dict(explanation="the Response state machine (body side) proved operation by operation; the parser, the protocol state machine and "
+                         "the request Deferred bounded: " + _SCOPE,
+             not_covered=["HTTPClientParser (status line, headers, choice of the body decoder, which reason is given at connection loss), "
+                          "HTTP11ClientProtocol's own state machine and the request Deferred: bounded tier only",
+                          "the transfer decoders: C22 (chunked), bounded (identity)"])
 MANIFEST = dict(
-    category="exploration",
-    text="Bounded stand-in only, on the real code: " + 'the real HTTP11ClientProtocol on a fake transport: ~420 hand-built and 200 h11-serialized responses truncated at every byte, delivered whole / bytewise / 2-way split, deliverBody called at four different times; oracle: generator tags and h11 as client' + ".",
-    note=EXPLORATION_NOTE,
-    technique="bounded exhaustive evaluation of an executable contract on the real code (stand-in; not proved)",
+    category="proof",
+    text="The Response object between the parser and the application's body protocol is proved operation by operation, in "
+         "every state of its real state machine: body data is appended to the buffer (INITIAL) or handed to the protocol "
+         "exactly once (CONNECTED) and refused afterwards; the end of the body is parked (INITIAL) or reported through "
+         "connectionLost exactly once with the parser's reason, ResponseDone when none is given (CONNECTED), and refused "
+         "afterwards; deliverBody calls makeConnection, hands over every buffered chunk exactly once in order (inductive over "
+         "any number of chunks), and then either switches to CONNECTED before it resumes the transport or, if the end was "
+         "parked, calls connectionLost exactly once with the parked reason; a second deliverBody is refused with nothing "
+         "done.  The parser, the protocol's state machine and the request Deferred are exercised in the bounded tier only: "
+         + _SCOPE + ".",
+    note="Trusted: pyvc, SMT solvers, protocol / transport as recorded call-outs.  Everything else: bounded, never counted as proved.",
+    technique="contract-based deductive verification (complete case analysis of a state machine, inductive loops, call-out traces with state snapshots) + bounded exhaustive truncations of real responses",
 )
